@@ -154,9 +154,14 @@ impl<'a> TokenStream<'a> {
     /// Expands the span
     #[inline(always)]
     pub fn expand_span(&self, mut span: Span) -> Span {
-        span.end_line = self.last_span.end_line;
-        span.end_col = self.last_span.end_col;
-        span.end_offset = self.last_span.end_offset;
+        // a node that consumed no token (an empty assignment target) starts
+        // after the last consumed token; keep its own extent in that case
+        // instead of producing a span that ends before it starts.
+        if self.last_span.end_offset >= span.start_offset {
+            span.end_line = self.last_span.end_line;
+            span.end_col = self.last_span.end_col;
+            span.end_offset = self.last_span.end_offset;
+        }
         span
     }
 
